@@ -144,7 +144,7 @@ func TestC16(t *testing.T) {
 	for _, wt := range vals {
 		for _, dt := range []int{0, 1000, 7000} {
 			for _, hb := range []int{0, 1700, 30000} { // no heartbeat is due at a disconnection instant: select would pick either
-				for _, exp := range []int{0, 10000, 40000} {
+				for _, exp := range []int{0, 5000, 10000, 40000} { // 5 s: less than the 7 s dispatch timeout, the disconnection instant is already past
 					for k := 0; k < n; k++ {
 						c := c16Case{WT: wt, DT: dt, HB: hb, Exp: exp}
 						at := 0
@@ -160,9 +160,6 @@ func TestC16(t *testing.T) {
 		}
 	}
 	for _, c := range cases {
-		if c.WT != 0 && c.DT > c.WT {
-			continue // a dispatch timeout beyond the write timeout: the disconnection instant would precede the opening
-		}
 		writes, end, status := runC16Case(t, c)
 		if status != 200 {
 			t.Fatalf("subscription refused: %d (%+v)", status, c)
